@@ -1283,13 +1283,21 @@ int main(int argc, char** argv) {
     }
 
     if ((FormatOccured & eMotoOccured) && (!SepMoto)) {
+        if (!EntryAdrPresent) {
+            EntryAdr = 0;
+        }
+
+        /* the termination record must be wide enough for the entry address */
+
+        if (((EntryAdr >> 24) != 0) && (MaxMoto < 2)) {
+            MaxMoto = 2;
+        } else if (((EntryAdr >> 16) != 0) && (MaxMoto < 1)) {
+            MaxMoto = 1;
+        }
         errno = 0;
         fprintf(TargFile, "S%c%02X", '9' - MaxMoto, Lo(3 + MaxMoto));
         ChkIO(TargName);
         ChkSum = 3 + MaxMoto;
-        if (!EntryAdrPresent) {
-            EntryAdr = 0;
-        }
         if (MaxMoto >= 2) {
             errno = 0;
             fprintf(TargFile, "%02X", Lo(EntryAdr >> 24));
